@@ -294,6 +294,8 @@ pub struct Exec4 {
     /// content-before-frame monitor: active while an HTTP request is being served
     cas_watch: std::sync::Arc<std::sync::atomic::AtomicBool>,
     cas_failures: std::sync::Arc<std::sync::Mutex<Vec<String>>>,
+    /// when set, HTTP connections are served by this store instead of the model-tracked one (C20's import target)
+    alt_store: Option<xs::store::Store>,
 }
 
 enum Outcome {
@@ -344,6 +346,7 @@ impl Exec4 {
             cas_known: Vec::new(),
             cas_watch,
             cas_failures,
+            alt_store: None,
         })
     }
 
@@ -381,7 +384,8 @@ impl Exec4 {
     fn conn(&mut self, fresh: bool) -> &mut Conn {
         let broken = self.main.as_ref().map(|c| c.client.is_none() || c.eof || c.task_result.is_some()).unwrap_or(true);
         if fresh || broken {
-            self.main = Some(Conn::open(self.ex.w.rt(), self.ex.store(), &self.engine, self.pipe));
+            let st = self.alt_store.clone().unwrap_or_else(|| self.ex.store().clone());
+            self.main = Some(Conn::open(self.ex.w.rt(), &st, &self.engine, self.pipe));
             self.ex.w.probe("http:new-connection");
         } else {
             self.ex.w.probe("http:keep-alive");
@@ -1295,6 +1299,265 @@ pub fn exec_value(planv: &serde_json::Value, tag: &str) -> RunResult {
     let Exec4 { ex, follows, main, .. } = x;
     drop(follows);
     drop(main);
+    let (probes, decisions, sim_ms, trace) = ex.finish();
+    RunResult { violation, harness: harness_e, probes, decisions, sim_ms, trace, choices: vec![], plan_patch: None }
+}
+
+// ---------------------------------------------------------------------------------------
+// C20: export a store built by an arbitrary history, import it into an empty one over HTTP
+
+#[derive(Serialize, Deserialize, Clone, Debug)]
+pub struct Plan20 {
+    pub prop: String,
+    pub seed: u64,
+    pub pipe: usize,
+    pub ops: Vec<Op>,
+    pub order_seed: u64,
+    pub dup_pct: u32,
+    pub reg_last: bool,
+}
+
+pub fn generate20(seed: u64, thorough: bool) -> Plan20 {
+    let mut cfg = e3::GenCfg::for_prop("C20", thorough);
+    cfg.w_flush = 0;
+    cfg.w_reopen = 0;
+    cfg.w_readasync = 1;
+    cfg.w_back = 0;
+    cfg.w_register = 6;
+    cfg.w_remove = 9;
+    cfg.w_import = 5;
+    cfg.nul_topics = false;
+    cfg.big_meta_max = 7;
+    cfg.max_ops = 30;
+    let mut rng = Rng::new(seed ^ 0xc20);
+    let plan = e3::generate(seed, &cfg);
+    Plan20 {
+        prop: "C20".to_string(),
+        seed,
+        pipe: *rng.pick(&[1024usize, 4096, 65536]),
+        ops: plan.ops,
+        order_seed: rng.next_u64(),
+        dup_pct: *rng.pick(&[0u32, 10, 30]),
+        reg_last: rng.chance(40),
+    }
+}
+
+fn run20(x: &mut Exec4, plan: &Plan20) -> R<()> {
+    use crate::e1::{observe, Universe};
+    // the hashes used by generated appends refer to real content in the source store
+    for i in 1..6 {
+        let content = format!("content-{}", i % 5);
+        x.ex.store().cas_insert_sync(content.as_bytes()).map_err(|e| Stop::Harness(format!("cas_insert_sync: {}", e)))?;
+    }
+    for (i, op) in plan.ops.iter().enumerate() {
+        x.ex.w.log(format!("op{} {}", i, e3::op_short(op)));
+        x.ex.apply(i, op)?;
+    }
+    x.ex.settle("source settle")?;
+    // ---- export -----------------------------------------------------------------------
+    let frames: Vec<Frame> = x.ex.store().read_sync(None, None, None).collect();
+    let mut contents: Vec<(ssri::Integrity, Vec<u8>)> = Vec::new();
+    for f in &frames {
+        if let Some(h) = &f.hash {
+            if !contents.iter().any(|(k, _)| k == h) {
+                let b = x.ex.store().cas_read_sync(h).map_err(|e| Stop::Harness(format!("export: content {} unreadable: {}", h, e)))?;
+                contents.push((h.clone(), b));
+            }
+        }
+    }
+    x.ex.w.probe_n("export:frames", frames.len() as u64);
+    if frames.iter().any(|f| f.context_id != ZERO_CONTEXT) {
+        x.ex.w.probe("export:multi-context");
+    }
+    // ---- import into an empty store over HTTP -----------------------------------------
+    let tdir = x.ex.w.dir.join("target");
+    std::fs::create_dir_all(&tdir).map_err(|e| Stop::Harness(e.to_string()))?;
+    let target = x.ex.w.open_store(&tdir)?;
+    x.alt_store = Some(target.clone());
+    x.main = None;
+    let mut rng = Rng::new(plan.order_seed);
+    rng.shuffle(&mut contents);
+    for (h, b) in &contents {
+        let req = http::build_request("POST", "/cas", &[], Some(b), rng.chance(30), 4096);
+        match x.request(&req, rng.next_u64(), None, false, false)? {
+            Outcome::Resp(r) => {
+                if r.status != 200 || String::from_utf8_lossy(&r.body) != h.to_string() {
+                    return violation("import/cas-hash", format!("POST /cas of exported content answered {} {:?}, expected hash {}", r.status, String::from_utf8_lossy(&r.body), h));
+                }
+            }
+            Outcome::Dropped(why) => return violation("http/dropped-connection", format!("POST /cas during import: {}", why)),
+            Outcome::Cut => {}
+        }
+    }
+    let mut order: Vec<Frame> = frames.clone();
+    rng.shuffle(&mut order);
+    if plan.reg_last {
+        // context registrations after the frames that use them
+        order.sort_by_key(|f| (f.topic == "xs.context") as u8);
+        x.ex.w.probe("import:registrations-last");
+    }
+    let mut seq: Vec<Frame> = Vec::new();
+    for f in &order {
+        seq.push(f.clone());
+        if rng.chance(plan.dup_pct) {
+            seq.push(f.clone());
+            x.ex.w.probe("import:duplicate");
+        }
+    }
+    // frames that cannot be stored are refused whole
+    let bad_pos = rng.below(seq.len() + 1);
+    for (i, f) in seq.iter().enumerate() {
+        if i == bad_pos {
+            let mut bad = f.clone();
+            bad.topic = "bad\0topic".to_string();
+            bad.id = fresh_id(crate::ctrl::EPOCH_MS - 999, plan.order_seed);
+            for body in [serde_json::to_vec(&bad).unwrap(), b"{\"topic\":".to_vec()] {
+                let req = http::build_request("POST", "/import", &[], Some(&body), false, 0);
+                if let Outcome::Resp(r) = x.request(&req, rng.next_u64(), None, false, false)? {
+                    if r.status < 400 {
+                        return violation("import/accepted-invalid", format!("POST /import of an unstorable frame answered {}", r.status));
+                    }
+                }
+            }
+            if target.get(&bad.id).is_some() {
+                return violation("import/partial", "a frame with a NUL topic was refused but is found by id".to_string());
+            }
+            x.ex.w.probe("import:rejected");
+        }
+        let body = serde_json::to_vec(f).unwrap();
+        let req = http::build_request("POST", "/import", &[], Some(&body), false, 0);
+        match x.request(&req, rng.next_u64(), None, false, false)? {
+            Outcome::Resp(r) => {
+                if r.status != 200 {
+                    return violation("import/rejected-valid", format!("POST /import of {} answered {} {:?}", fmt_frame(f), r.status, String::from_utf8_lossy(&r.body)));
+                }
+            }
+            Outcome::Dropped(why) => return violation("http/dropped-connection", format!("POST /import: {}", why)),
+            Outcome::Cut => {}
+        }
+    }
+    // ---- compare ----------------------------------------------------------------------
+    let mut uni = Universe::default();
+    uni.ctxs.insert(ZERO_CONTEXT);
+    for id in &x.ex.issued {
+        uni.ids.insert(*id);
+    }
+    for f in &frames {
+        uni.ctxs.insert(f.context_id);
+        uni.topics.insert(f.topic.clone());
+    }
+    for c in &x.ex.reg {
+        uni.ctxs.insert(*c);
+    }
+    for t in e3::TOPICS {
+        uni.topics.insert(t.to_string());
+    }
+    let src = observe(x.ex.store(), &uni);
+    let compare = |label: &str, tgt: &crate::e1::Obs| -> R<()> {
+        if src.all != tgt.all {
+            let a: Vec<String> = src.all.iter().map(|f| f.id.to_string()).collect();
+            let b: Vec<String> = tgt.all.iter().map(|f| f.id.to_string()).collect();
+            if a != b {
+                return violation("import/state-differs", format!("{}: source stream [{}] but target stream [{}]", label, a.join(","), b.join(",")));
+            }
+            for (p, q) in src.all.iter().zip(tgt.all.iter()) {
+                if p != q {
+                    return violation("import/state-differs", format!("{}: source holds {} but the target holds {}", label, fmt_frame(p), fmt_frame(q)));
+                }
+            }
+        }
+        if src.per_ctx != tgt.per_ctx {
+            return violation("import/state-differs", format!("{}: per-context streams differ", label));
+        }
+        if src.heads != tgt.heads {
+            for (k, v) in &src.heads {
+                if tgt.heads.get(k) != Some(v) {
+                    return violation("import/state-differs", format!("{}: head({:?}, {}) is {:?} in the source but {:?} in the target", label, k.1, short_ctx(&k.0), v.map(|i| i.to_string()), tgt.heads.get(k).cloned().flatten().map(|i| i.to_string())));
+                }
+            }
+        }
+        if src.gets != tgt.gets {
+            for (k, v) in &src.gets {
+                if tgt.gets.get(k) != Some(v) {
+                    return violation("import/state-differs", format!("{}: get({}) is {:?} in the source but {:?} in the target", label, k, v.as_ref().map(fmt_frame), tgt.gets.get(k).cloned().flatten().as_ref().map(fmt_frame)));
+                }
+            }
+        }
+        Ok(())
+    };
+    let tgt = observe(&target, &uni);
+    compare("after import", &tgt)?;
+    for (h, b) in &contents {
+        match target.cas_read_sync(h) {
+            Ok(x2) if x2 == *b => {}
+            _ => return violation("import/content-differs", format!("content {} differs or is missing in the target", h)),
+        }
+    }
+    // importing the same frames again changes nothing
+    for f in order.iter().take(3) {
+        let body = serde_json::to_vec(f).unwrap();
+        let req = http::build_request("POST", "/import", &[], Some(&body), false, 0);
+        let _ = x.request(&req, 5, None, false, false)?;
+    }
+    let tgt2 = observe(&target, &uni);
+    if tgt2 != tgt {
+        return violation("import/not-idempotent", "re-importing frames changed the target store".to_string());
+    }
+    // usable contexts: same in both stores (probe appends; both stores are disposable now)
+    let mut probe_ctxs: Vec<Scru128Id> = uni.ctxs.iter().copied().collect();
+    probe_ctxs.push(fresh_id(crate::ctrl::EPOCH_MS - 4242, 99));
+    let probe = |st: &xs::store::Store| -> Vec<bool> { probe_ctxs.iter().map(|c| st.append(Frame::builder("probe", *c).ttl(TTL::Ephemeral).build()).is_ok()).collect() };
+    let ps = probe(x.ex.store());
+    let pt = probe(&target);
+    if ps != pt {
+        let i = ps.iter().zip(pt.iter()).position(|(a, b)| a != b).unwrap();
+        return violation(
+            "import/contexts-differ",
+            format!("context {} accepts appends = {} in the source but {} in the freshly imported target", short_ctx(&probe_ctxs[i]), ps[i], pt[i]),
+        );
+    }
+    x.ex.w.probe("import:compared");
+    // ... and again after reopening the target
+    x.main = None;
+    x.alt_store = None;
+    let tdir2 = x.ex.w.dir.join("target2");
+    e3::copy_dir_stable(&tdir, &tdir2).map_err(Stop::Harness)?;
+    x.ex.w.close_store(target, Some(tdir.clone()))?;
+    let target2 = x.ex.w.open_store(&tdir2)?;
+    let tgt3 = observe(&target2, &uni);
+    compare("after reopening the target", &tgt3).map_err(|e| reclass(e, "import/reopen-differs"))?;
+    let pt2 = probe(&target2);
+    if pt2 != ps {
+        let i = ps.iter().zip(pt2.iter()).position(|(a, b)| a != b).unwrap();
+        return violation("import/contexts-differ", format!("context {} accepts appends = {} in the source but {} in the reopened target", short_ctx(&probe_ctxs[i]), ps[i], pt2[i]));
+    }
+    x.ex.w.close_store(target2, Some(tdir2))?;
+    Ok(())
+}
+
+pub fn exec_value20(planv: &serde_json::Value, tag: &str) -> RunResult {
+    let empty = |h: String| RunResult { violation: None, harness: Some(h), probes: BTreeMap::new(), decisions: 0, sim_ms: 0, trace: vec![], choices: vec![], plan_patch: None };
+    let plan: Plan20 = match serde_json::from_value(planv.clone()) {
+        Ok(p) => p,
+        Err(e) => return empty(format!("bad plan: {}", e)),
+    };
+    let p4 = Plan { prop: "C20".into(), seed: plan.seed, pipe: plan.pipe, ops: vec![] };
+    let mut x = match Exec4::new(tag, &p4) {
+        Ok(x) => x,
+        Err(Stop::Harness(h)) => return empty(h),
+        Err(Stop::Violation(v)) => return RunResult { violation: Some(v), harness: None, probes: BTreeMap::new(), decisions: 0, sim_ms: 0, trace: vec![], choices: vec![], plan_patch: None },
+    };
+    let res = std::panic::catch_unwind(std::panic::AssertUnwindSafe(|| run20(&mut x, &plan)));
+    let (violation, harness_e) = match res {
+        Ok(Ok(())) => (None, None),
+        Ok(Err(Stop::Violation(v))) => (Some(v), None),
+        Ok(Err(Stop::Harness(h))) => (None, Some(h)),
+        Err(p) => (Some(Violation::new("import/panic", format!("panicked: {}", crate::world::panic_msg(&p)))), None),
+    };
+    let Exec4 { ex, follows, main, alt_store, .. } = x;
+    drop(follows);
+    drop(main);
+    drop(alt_store);
     let (probes, decisions, sim_ms, trace) = ex.finish();
     RunResult { violation, harness: harness_e, probes, decisions, sim_ms, trace, choices: vec![], plan_patch: None }
 }
